@@ -33,6 +33,8 @@ func ereal() {
 		{2 * time.Second, 5 * time.Second, 500 * time.Millisecond, "healthy"},
 		{2 * time.Second, 5 * time.Second, 3 * time.Second, "offline"},
 		{8 * time.Second, 20 * time.Second, 6 * time.Second, "healthy"}, // check_timeout above the 5 s of the client's own timeout
+		// a value validation either refuses or honours: a negative timeout that is accepted makes every probe expire before it is sent
+		{-1 * time.Second, 5 * time.Second, 0, "healthy"},
 	}
 	for _, c := range cells {
 		if report.Expired() {
@@ -45,9 +47,11 @@ func ereal() {
 		p := 100
 		if err := repo.LoadFromConfig(ctx, []config.EndpointConfig{{URL: be.URL(), Name: "R", Type: "openai-compatible", Priority: &p,
 			HealthCheckURL: be.HealthPath, ModelURL: "/v1/models", CheckInterval: c.interval, CheckTimeout: c.timeout}}); err != nil {
-			res.Break("E-real: configuration (timeout %s, interval %s) rejected: %v", c.timeout, c.interval, err)
+			if c.timeout > 0 {
+				res.Break("E-real: configuration (timeout %s, interval %s) rejected: %v", c.timeout, c.interval, err)
+			}
 			be.Close()
-			continue
+			continue // refused by validation: nothing to honour
 		}
 		hc := health.NewHTTPHealthCheckerWithDefaults(repo, lg)
 		t0 := time.Now()
